@@ -44,7 +44,8 @@ def gen(S, tier):
         kind = "argv"
         if w.chance(0.15) and all(t and all(ch.isalnum() or ch in "-=." for ch in t) for t in toks):
             kind = "string"
-        reqs.append({"fmt": k, "tokens": toks, "lenient": w.chance(0.3), "raw": kind, "notes": notes})
+        reqs.append({"fmt": k, "tokens": toks, "lenient": w.chance(0.3), "raw": kind, "notes": notes,
+                     "script": w.pick(["prog", "prog", "prog", "-c", "", "python -m tool", "/usr/bin/app"])})
     return {"pool": pool, "requests": reqs}
 
 
@@ -112,11 +113,11 @@ def _outcome(parser, raw, fmt, lenient):
         return ("snapshot_error", type(e).__name__, str(e))
 
 
-def _raw(kind, tokens):
+def _raw(kind, tokens, script="prog"):
     from clikit.args import ArgvArgs, StringArgs
     if kind == "string":
         return StringArgs(" ".join(tokens)), None
-    argv = ["prog"] + list(tokens)
+    argv = [script] + list(tokens)
     return ArgvArgs(argv), argv
 
 
@@ -141,9 +142,10 @@ def execute(sc):
         tokens = list(rq["tokens"])
         if rq["raw"] == "string":
             res.probe("string_args")
-        raw, argv = _raw(rq["raw"], tokens)
+        script = rq.get("script", "prog")
+        raw, argv = _raw(rq["raw"], tokens, script)
         # wrapping an argv list as raw arguments must not alter the list either
-        argv_before = (["prog"] + list(tokens)) if argv is not None else None
+        argv_before = ([script] + list(tokens)) if argv is not None else None
         tok_obj, opt_obj = raw.tokens, raw.option_tokens
         tok_before, opt_before = list(tok_obj), list(opt_obj)
         listing_before = _fmt_listing(fmt)
@@ -161,7 +163,7 @@ def execute(sc):
             res.violate("input_mutated", "format", "format listing changed by parse of %r" % (tokens,))
 
         # reference: a parser constructed for this one request, on fresh raw args
-        raw2, _ = _raw(rq["raw"], tokens)
+        raw2, _ = _raw(rq["raw"], tokens, script)
         want = _outcome(DefaultArgsParser(), raw2, fmt, rq["lenient"])
         log.append((i, rq["fmt"], rq["lenient"], got[0], got[1] if got[0] != "ok" else None))
         if got != want:
